@@ -3,13 +3,13 @@
 use any_vec::any_value::AnyValueWrapper;
 use any_vec::{AnyVec, SatisfyTraits};
 
-use crate::caps::{Consumer, InsertC, PushC, TrX, MX};
+use crate::caps::{Consumer, InsertC, PushC, SpliceC, TrX, MX};
 use crate::elem::{self, Elem};
 use crate::exec::{guarded, snap, Caught, Out, World};
 use crate::types::*;
 
 pub const LZ_SRCS: u8 = 6;
-pub const LZ_HOWS: u8 = 4;
+pub const LZ_HOWS: u8 = 5;
 
 #[derive(Clone, Copy)]
 struct LzPlan { depth: u8, uses: u8, how: u8, copies: u8 }
@@ -24,6 +24,7 @@ macro_rules! lz_apply {
                 0 => <$Tr>::$feed($h, p.depth, $b, PushC),
                 1 => <$Tr>::$feed($h, p.depth, $b, InsertC(0)),
                 2 => { let at = 1 + u as usize; <$Tr>::$feed($h, p.depth, $b, InsertC(at)) }
+                4 => <$Tr>::$feed($h, p.depth, $b, SpliceC(0)),
                 _ => { let v: Option<$T> = <$Tr>::$down::<$T, _>($h, p.depth); let v = v.expect("lazy clone downcast to the real type failed"); $got.push(v.id()); let _w = elem::WindowOff::new(); drop(v); }
             }
         }
@@ -62,12 +63,12 @@ impl<T: Elem + SatisfyTraits<Tr>, M: MX, Tr: TrX + ?Sized> World<T, M, Tr> {
         let clones = after.0 - before.0;
         if clones != uses as u32 { out.fail(Class::Vec, "lazy-clone-count", format!("{uses} consumption(s) of a depth-{depth} lazy clone (plus {copies} unconsumed copies) performed {clones} Clone call(s)")); }
         // destroyed: only the `uses` downcast results the harness dropped itself
-        let expect_drops = if how >= 3 { uses as u32 } else { 0 };
+        let expect_drops = if how == 3 { uses as u32 } else { 0 };
         if T::HAS_DROP && after.1 - before.1 != expect_drops { out.fail(Class::Own, "lazy-destroys", format!("lazy clone protocol destroyed {} value(s), expected {expect_drops}", after.1 - before.1)); }
         if T::SIZE != 0 { for id in &got { if elem::parent_of(*id) != Some(src_id) { out.fail(Class::Vec, "lazy-not-a-clone", format!("downcast of a lazy clone gave id {id} whose parent is {:?}, source is {src_id}", elem::parent_of(*id))); } } }
         // model: destination
         for u in 0..uses {
-            match how { 0 => mb.push(Mv::CloneOf(src_id)), 1 => mb.insert(0, Mv::CloneOf(src_id)), 2 => mb.insert(1 + u as usize, Mv::CloneOf(src_id)), _ => {} }
+            match how { 0 => mb.push(Mv::CloneOf(src_id)), 1 | 4 => mb.insert(0, Mv::CloneOf(src_id)), 2 => mb.insert(1 + u as usize, Mv::CloneOf(src_id)), _ => {} }
         }
         // model: source, then (for handles) the source value itself moved to B's end, proving it stayed usable
         match src {
